@@ -8,6 +8,9 @@ import Mathlib.Tactic.Linarith
 import Mathlib.Tactic.Ring
 import Mathlib.Tactic.FieldSimp
 import Mathlib.Tactic.NormNum
+import Mathlib.MeasureTheory.Integral.IntervalIntegral.Basic
+import Mathlib.MeasureTheory.Measure.Lebesgue.Basic
+import Mathlib.Data.Rat.Cast.Order
 
 /-!
 # C10 — dosing regimens deliver the specified amounts at the specified times
@@ -813,6 +816,227 @@ theorem C10_surgery_indirect (m : Eqs) (amount depot ka rate : String) (old : Ex
     have : m1.rhs.lookup depot = _ := h1D
     simp [this]
   · rw [hm', hm1']; simp [Eqs.set]
+
+/-! ## protocols with any number of non-overlapping single events -/
+
+
+/-- the pacing value of a protocol, restated with the list of started events made explicit -/
+def bestOf (t : ℚ) (e0 : Event) (r : List Event) : Event :=
+  r.foldl (fun b e => if occStart b (lastIdx b t) ≤ occStart e (lastIdx e t) then e else b) e0
+
+theorem paceMulti_eq (es : List Event) (t : ℚ) :
+    paceMulti es t = match es.filter (fun e => decide (e.start ≤ t)) with
+      | [] => 0
+      | e0 :: r =>
+        if t < occStart (bestOf t e0 r) (lastIdx (bestOf t e0 r) t) + (bestOf t e0 r).duration
+        then (bestOf t e0 r).level else 0 := by
+  unfold paceMulti bestOf
+  rfl
+
+theorem single_lastStart (e : Event) (hp : e.period = 0) (t : ℚ) :
+    occStart e (lastIdx e t) = e.start := by
+  simp [occStart, lastIdx, hp]
+
+theorem pace_single (e : Event) (hp : e.period = 0) (t : ℚ) :
+    pace e t = if t < e.start then 0 else if t < e.start + e.duration then e.level else 0 := by
+  unfold pace; rw [single_lastStart e hp]
+
+/-- **Protocols of non-overlapping single events** (what a dataset with non-overlapping dose rows
+    yields, any number of rows): the pacing variable is the sum of the individual rates, so each
+    row's dose is delivered in full (`deliveredMulti`). -/
+theorem C10_multi_nonoverlap (es : List Event) (hv : ∀ e ∈ es, e.Valid) (hp : ∀ e ∈ es, e.period = 0)
+    (hsep : es.Pairwise (fun e f => e.start + e.duration ≤ f.start)) (t : ℚ) :
+    paceMulti es t = (es.map (fun e => pace e t)).sum := by
+  induction es with
+  | nil => simp [paceMulti]
+  | cons e rest ih =>
+    rw [List.pairwise_cons] at hsep
+    have ihr := ih (fun f hf => hv f (List.mem_cons_of_mem _ hf))
+      (fun f hf => hp f (List.mem_cons_of_mem _ hf)) hsep.2
+    have hpe := hp e List.mem_cons_self
+    have hde := (hv e List.mem_cons_self).duration_nonneg
+    simp only [List.map_cons, List.sum_cons]
+    by_cases hst : e.start ≤ t
+    · -- e has started
+      cases hf : rest.filter (fun f => decide (f.start ≤ t)) with
+      | nil =>
+        -- nothing later has started: e rules, the later ones contribute nothing
+        have hzero : (rest.map (fun f => pace f t)).sum = 0 := by
+          apply List.sum_eq_zero
+          intro x hx
+          obtain ⟨f, hfm, rfl⟩ := List.mem_map.mp hx
+          have : ¬ f.start ≤ t := by
+            intro h
+            have : f ∈ rest.filter (fun f => decide (f.start ≤ t)) :=
+              List.mem_filter.mpr ⟨hfm, by simpa using h⟩
+            rw [hf] at this; cases this
+          rw [pace_single f (hp f (List.mem_cons_of_mem _ hfm)), if_pos (not_le.mp this)]
+        rw [hzero, add_zero, paceMulti_eq]
+        simp only [List.filter_cons, hst, decide_true, if_true, hf]
+        have hb0 : bestOf t e [] = e := rfl
+        rw [hb0, pace_single e hpe, if_neg (not_lt.mpr hst)]
+        simp only [single_lastStart e hpe]
+      | cons x xs =>
+        -- a later event has started: e is over, and the protocol behaves like the rest
+        have hx : x ∈ rest ∧ x.start ≤ t := by
+          have : x ∈ rest.filter (fun f => decide (f.start ≤ t)) := by rw [hf]; exact List.mem_cons_self
+          have := List.mem_filter.mp this
+          exact ⟨this.1, by simpa using this.2⟩
+        have hover : e.start + e.duration ≤ t := le_trans (hsep.1 x hx.1) hx.2
+        have hpe0 : pace e t = 0 := by
+          rw [pace_single e hpe, if_neg (not_lt.mpr hst), if_neg (not_lt.mpr hover)]
+        rw [hpe0, zero_add, ← ihr, paceMulti_eq, paceMulti_eq]
+        simp only [List.filter_cons, hst, decide_true, if_true, hf]
+        have hb : bestOf t e (x :: xs) = bestOf t x xs := by
+          unfold bestOf
+          simp only [List.foldl_cons]
+          rw [single_lastStart e hpe, single_lastStart x (hp x (List.mem_cons_of_mem _ hx.1))]
+          have : e.start ≤ x.start := le_trans (by linarith) (hsep.1 x hx.1)
+          rw [if_pos this]
+        rw [hb]
+    · -- e has not started, hence nothing has
+      have hlt : t < e.start := not_le.mp hst
+      have hnone : rest.filter (fun f => decide (f.start ≤ t)) = [] := by
+        apply List.filter_eq_nil_iff.mpr
+        intro f hfm
+        have := hsep.1 f hfm
+        simp only [decide_eq_true_eq, not_le]; linarith
+      have hzero : (rest.map (fun f => pace f t)).sum = 0 := by
+        apply List.sum_eq_zero
+        intro x hx
+        obtain ⟨f, hfm, rfl⟩ := List.mem_map.mp hx
+        have := hsep.1 f hfm
+        rw [pace_single f (hp f (List.mem_cons_of_mem _ hfm)), if_pos (by linarith)]
+      rw [hzero, pace_single e hpe, if_pos hlt, paceMulti_eq]
+      simp [hst, hnone]
+
+
+/-- the protocol built from a dataset whose dose rows do not overlap applies every row's rate in
+    full: its pacing variable is the sum over the rows -/
+theorem C10_dataset_delivery (dflt : ℚ) (rows : List DoseRow) (evs : List Event)
+    (h : rowsToProtocol dflt rows [] = .ok evs)
+    (hsep : evs.Pairwise (fun e f => e.start + e.duration ≤ f.start)) (t : ℚ) :
+    paceMulti evs t = (evs.map (fun e => pace e t)).sum := by
+  obtain ⟨hperm, _, hall⟩ := C10_dataset_rows dflt rows [] evs h List.Pairwise.nil
+  have hmem : ∀ e ∈ evs, e ∈ rows.filterMap (rowSpec dflt) := by
+    intro e he; simpa using hperm.mem_iff.mp he
+  exact C10_multi_nonoverlap evs (fun e he => (hall e (hmem e he)).1)
+    (fun e he => (hall e (hmem e he)).2.2.1) hsep t
+
+/-! ## the cumulative input is the integral of the pacing variable -/
+section integral
+open MeasureTheory Set
+
+
+theorem integral_block (a d L T : ℝ) (hT : 0 ≤ T) (ha : 0 ≤ a) :
+    ∫ t in (0:ℝ)..T, Set.indicator (Set.Ico a (a + d)) (fun _ => L) t =
+      L * max 0 (min (T - a) d) := by
+  have hae : Set.indicator (Set.Ico a (a + d)) (fun _ => L) =ᵐ[volume]
+      Set.indicator (Set.Ioc a (a + d)) (fun _ => L) :=
+    indicator_ae_eq_of_ae_eq_set Ico_ae_eq_Ioc
+  rw [intervalIntegral.integral_congr_ae (g := Set.indicator (Set.Ioc a (a + d)) (fun _ => L))
+    (by filter_upwards [hae] with x hx _ using hx)]
+  rw [intervalIntegral.integral_of_le hT, setIntegral_indicator measurableSet_Ioc, Set.Ioc_inter_Ioc,
+    setIntegral_const, Real.volume_real_Ioc, smul_eq_mul, mul_comm]
+  congr 1
+  rw [max_eq_right ha]
+  rcases le_total (T - a) d with h | h
+  · rw [min_eq_left h, min_eq_left (by linarith : T ≤ a + d)]
+    rw [max_comm]
+  · rw [min_eq_right h, min_eq_right (by linarith : a + d ≤ T)]
+    rw [max_comm]; congr 1; ring
+
+/-- the step function on the real line made of the first `n` occurrences of the event:
+    `level` on every `[start + k·period, start + k·period + duration)`, `k < n` -/
+noncomputable def paceStep (e : Event) (n : ℕ) (t : ℝ) : ℝ :=
+  ∑ k ∈ Finset.range n,
+    Set.indicator (Set.Ico ((occStart e k : ℚ) : ℝ) (((occStart e k : ℚ) : ℝ) + ((e.duration : ℚ) : ℝ)))
+      (fun _ => ((e.level : ℚ) : ℝ)) t
+
+theorem nStarted_mono (e : Event) (hv : e.Valid) {t T : ℚ} (h : t ≤ T) :
+    nStarted e t ≤ nStarted e T := by
+  by_contra hc
+  have hk := (C10_started_iff e hv t (nStarted e T)).mp (by omega)
+  have := (C10_started_iff e hv T (nStarted e T)).mpr ⟨hk.1, le_trans hk.2 h⟩
+  omega
+
+/-- at every rational time up to `T` the step function is the pacing variable -/
+theorem paceStep_eq_pace (e : Event) (hv : e.Valid) (t T : ℚ) (htT : t ≤ T) :
+    paceStep e (nStarted e T) (t : ℝ) = ((pace e t : ℚ) : ℝ) := by
+  unfold paceStep
+  have hmem : ∀ k, (t : ℝ) ∈ Set.Ico ((occStart e k : ℚ) : ℝ)
+      (((occStart e k : ℚ) : ℝ) + ((e.duration : ℚ) : ℝ)) ↔
+      (occStart e k ≤ t ∧ t < occStart e k + e.duration) := by
+    intro k
+    rw [Set.mem_Ico, ← Rat.cast_add, Rat.cast_le, Rat.cast_lt]
+  by_cases hex : ∃ k, scheduled e k = true ∧ occStart e k ≤ t ∧ t < occStart e k + e.duration
+  · obtain ⟨k, hs, h1, h2⟩ := hex
+    rw [(C10_pace e hv t).1 ⟨k, hs, h1, h2⟩]
+    have hk : k < nStarted e T :=
+      lt_of_lt_of_le ((C10_started_iff e hv t k).mpr ⟨hs, h1⟩) (nStarted_mono e hv htT)
+    rw [Finset.sum_eq_single k]
+    · rw [Set.indicator_of_mem ((hmem k).mpr ⟨h1, h2⟩)]
+    · intro j hj hjk
+      apply Set.indicator_of_notMem
+      rw [hmem j]
+      rintro ⟨hj1, hj2⟩
+      -- two different occurrences cannot both be running
+      have hp : 0 < e.period := by
+        by_contra hc
+        have h0 : e.period = 0 := le_antisymm (not_lt.mp hc) hv.period_nonneg
+        have hsj := ((C10_started_iff e hv T j).mp (Finset.mem_range.mp hj)).1
+        unfold scheduled at hs hsj
+        simp [h0] at hs hsj
+        omega
+      have hfit := hv.fits hp
+      rcases Nat.lt_or_gt_of_ne hjk with hlt | hgt
+      · have h3 : occStart e (j + 1) ≤ occStart e k := occStart_mono e hv hlt
+        rw [occStart_succ] at h3; linarith
+      · have h3 : occStart e (k + 1) ≤ occStart e j := occStart_mono e hv hgt
+        rw [occStart_succ] at h3; linarith
+    · intro hk'; exact absurd (Finset.mem_range.mpr hk) hk'
+  · rw [(C10_pace e hv t).2 hex]
+    rw [Rat.cast_zero]
+    apply Finset.sum_eq_zero
+    intro k hk
+    apply Set.indicator_of_notMem
+    rw [hmem k]
+    rintro ⟨h1, h2⟩
+    exact hex ⟨k, ((C10_started_iff e hv T k).mp (Finset.mem_range.mp hk)).1, h1, h2⟩
+
+theorem cast_sumTo (n : ℕ) (f : ℕ → ℚ) :
+    ((sumTo n f : ℚ) : ℝ) = ∑ k ∈ Finset.range n, ((f k : ℚ) : ℝ) := by
+  induction n with
+  | zero => simp [sumTo]
+  | succ m ih => rw [sumTo_succ, Finset.sum_range_succ, Rat.cast_add, ih]
+
+/-- **Cumulative input = ∫ pace.**  For every well-formed event and every rational `T ≥ 0` the
+    interval integral over `[0, T]` of the step function that coincides with the pacing variable
+    at all (rational) times up to `T` is the cumulative input `delivered e T`. -/
+theorem C10_delivered_integral (e : Event) (hv : e.Valid) (T : ℚ) (hT : 0 ≤ T) :
+    (∫ t in (0:ℝ)..(T : ℝ), paceStep e (nStarted e T) t) = ((delivered e T : ℚ) : ℝ) ∧
+    ∀ t : ℚ, t ≤ T → paceStep e (nStarted e T) (t : ℝ) = ((pace e t : ℚ) : ℝ) := by
+  refine ⟨?_, fun t ht => paceStep_eq_pace e hv t T ht⟩
+  unfold delivered paceStep
+  have hT' : (0:ℝ) ≤ (T : ℝ) := by exact_mod_cast hT
+  rw [intervalIntegral.integral_finsetSum]
+  · rw [cast_sumTo]
+    apply Finset.sum_congr rfl
+    intro k _
+    have ha : (0:ℝ) ≤ ((occStart e k : ℚ) : ℝ) := by
+      have : 0 ≤ occStart e k := le_trans hv.start_nonneg (by
+        have := occStart_mono e hv (Nat.zero_le k); simpa [occStart] using this)
+      exact_mod_cast this
+    rw [integral_block _ _ _ _ hT' ha]
+    unfold occDelivered
+    push_cast
+    rfl
+  · intro k _
+    rw [intervalIntegrable_iff_integrableOn_Ioc_of_le hT']
+    exact (integrableOn_const (by simp)).indicator measurableSet_Ico
+
+
+end integral
 
 /-! ## non-vacuity -/
 
